@@ -147,6 +147,8 @@ def check(model: Model, tier: str):
     obs = []
     obs += rule_drain(model)
     obs += c01.allowance_sites(model, "_extras.permute", {"d": Fraction(-1)})
+    # any direct rank selection inside reshape must use a relative allowance shared among the dfin-1 bonds of the result
+    obs += c01.allowance_sites(model, "_extras.reshape", {"(dfin - 1)": Fraction(-1, 2)})
     obs += c01.eps_flow(model, "_extras.reshape", "torchtt._decomposition.to_tt")
     obs += c01.eps_flow(model, "_extras.reshape", "torchtt._decomposition.mat_to_tt")
     # the split tolerance is shared among the dfin-1 bonds of the result
